@@ -19,6 +19,12 @@ func (c *Core) SendBundle(bndl *bpv7.Bundle) {
 	// The sequence number must be final before the bundle is signed and filed in the store under its ID.
 	c.idKeeper.update(bndl)
 
+	// The IdKeeper does not survive a restart: never reuse an ID which is still on file, e.g., for bundles without
+	// a clock whose creation time is always zero.
+	for c.store.KnowsBundle(bndl.ID()) {
+		c.idKeeper.update(bndl)
+	}
+
 	if c.signPriv != nil && bndl.IsAdministrativeRecord() {
 		c.sendBundleAttachSignature(bndl)
 	}
